@@ -510,6 +510,45 @@ def cross_file_responses(ctx, cov):
     return dict(workspaces=nws, locations_checked=nloc)
 
 
+def diag_response_ranges(ctx, cov, cases):
+    """the diagnostics RESPONSE (ProjectManager::generate_document_diagnostic_report: parser diagnostics as assembled for the
+    client + the analysers' items), through harness engine `report`: every item's range has start <= end and lies on
+    lines of the document.  Texts with unclosed blocks nested in unclosed blocks (parser diagnostics that are not in
+    document order), stray tokens in runs, and a sample of this check's own cases."""
+    rng = random.Random(ctx.seed + 88)
+    nested = []
+    for kw, cond in (("if", "a"), ("while", "a"), ("for", "i = 1 to 3"), ("loop", ""), ("switch", "a")):
+        for kw2, cond2 in (("if", "b"), ("while", "b"), ("repeat", "")):
+            for sep in ("\n  ", " "):
+                nested.append("proc Foo\n  %s %s%s%s %s%sx = 1\nendproc\n" % (kw, cond, sep, kw2, cond2, sep))
+                nested.append("class aX\nproc Foo\n  %s %s%s%s %s%sx = 1\n  ) ) )\nendproc\nproc Bar\n  ( ( (\nendproc\n" % (kw, cond, sep, kw2, cond2, sep))
+    texts = [pc.enc(t) for t in nested] + rng.sample([c for c in cases if 10 < c.count(".") < 1500], min(len(cases), 1200 if ctx.quick else 20000))
+    outs = core.run_lines(diff.Engines.harness(), "report", texts)
+    n_items = 0
+    for c, o in zip(texts, outs):
+        if o.startswith(("PANIC", "HANG")) or o == "CRASH" or "#" not in o:
+            bad = "the diagnostics request did not answer: " + o[:200] if o.startswith(("PANIC", "HANG")) or o == "CRASH" else None
+        else:
+            bad = None
+            text = pc.dec(c)
+            resp = o.split("#", 1)[1].split("|", 1)[0]
+            for it in [x for x in resp.split(";") if x]:
+                f = it.split(":")
+                if len(f) < 8:
+                    continue
+                n_items += 1
+                e = range_ok(text, tuple(int(x) for x in f[3:7]))
+                if e:
+                    bad = "diagnostics response item (severity %s): %s" % (f[0], e)
+                    break
+        if bad:
+            path = core.write_replay(ctx.pid, ctx.seed, {"engine": "report", "case": c, "case_readable": pc.dec(c)[:2000], "observed": o[-1500:], "expected": bad})
+            v = core.Violation(bad, path, True)
+            v.coverage = cov
+            raise v
+    return dict(documents=len(texts), items=n_items)
+
+
 def correspondence(ctx, broken_obligations=()):
     cases, hist = gen_cases(ctx)
     known = known_for(ctx)
@@ -545,6 +584,7 @@ def correspondence(ctx, broken_obligations=()):
             v.coverage = cov
             raise v
     cov["cross_file_responses"] = cross_file_responses(ctx, cov)
+    cov["diagnostics_response_ranges"] = diag_response_ranges(ctx, cov, cases)
     cov["project_manager_cases"] = len(pmc)
     cov["project_manager_symbols"] = n_sym
     cov["input_histogram"] = hist
